@@ -125,6 +125,57 @@ def early_exits(fn, te, h, l, op, name):
     return out
 
 
+def reduce_defaults(prog):
+    """`iter.reduce(|acc, x| op(acc, x))` has no seed: the value chosen for the *empty* sequence (`unwrap_or(d)`,
+    `unwrap_or_else(|| d)`, `map_or(d, ..)`, a `match` on the Option) takes the seed's place and must be the identity of
+    the operation — an empty disjunction is false, an empty conjunction true, an empty sum zero, an empty product one."""
+    from . import canon
+    out, seen = [], {}
+    for fn in prog.lib_fns + prog.bin_fns:
+        if "::tests::" in fn.npath or fn.name.startswith("test_") or "::test::" in fn.npath:
+            continue
+        if not any(b["term"]["k"] == "call" for b in fn.blocks):
+            continue
+        te = fn.terms
+        for cs in te.calls:
+            if cs.callee.name != "reduce" or len(cs.args) != 2 or cs.callee.local:
+                continue
+            g, _ = canon.closure_fn(prog, cs.args[1])
+            if g is None or g.terms.ret is None:
+                continue
+            op = update_op(g.terms.ret, ("param", 2))
+            if op is None:
+                continue
+            # how is the Option consumed?
+            red = strip(cs.term)
+            dflt = None
+            for c2 in te.calls:
+                if c2.args and strip(c2.args[0]) == red and c2.callee.name in ("unwrap_or", "unwrap_or_else", "map_or", "map_or_else"):
+                    d = c2.args[1]
+                    if c2.callee.name in ("unwrap_or_else", "map_or_else"):
+                        h, _ = canon.closure_fn(prog, d)
+                        d = h.terms.ret if h is not None else None
+                    dflt = (c2, d)
+            key = "%s:reduce<-%s" % (fn.npath, op)
+            seen[key] = seen.get(key, 0) + 1
+            if seen[key] > 1:
+                key += "#%d" % seen[key]
+            if dflt is None or dflt[1] is None:
+                # unwrap()/expect() (the caller guarantees a non-empty sequence) or a match this rule does not read
+                continue
+            ck = const_kind(dflt[1])
+            if ck is None:
+                out.append(inst("FS", key, OK, fn, cs.line, "the empty case of the reduce is a value (%s)" % show(dflt[1])[:60]))
+            elif ck != IDENT[op]:
+                out.append(inst("FS", key, VIOLATION, fn, cs.line,
+                                "reduce combines with %s but answers %s for the empty sequence (the identity of %s is %s): an empty "
+                                "%s is %s" % (op, ck, op, IDENT[op], {"or": "disjunction (the empty clause)", "and": "conjunction",
+                                                                      "Add": "sum", "Mul": "product"}[op], IDENT[op])))
+            else:
+                out.append(inst("FS", key, OK, fn, cs.line, "reduce of %s answers its identity %s for the empty sequence" % (op, ck)))
+    return out
+
+
 def run(prog):
     out = []
     n = 0
@@ -180,6 +231,7 @@ def run(prog):
                                 "fold combines with %s but is seeded with %s (identity is %s)" % (op, ck, IDENT[op])))
             else:
                 out.append(inst("FS", key, OK, fn, cs.line, "fold of %s from its identity %s" % (op, ck)))
+    out += reduce_defaults(prog)
     out += early_outs(prog)
     if n < 8:
         raise CheckerError("FS: only %d accumulators recognised" % n)
